@@ -170,6 +170,32 @@ def build(recipe):
             grow(F.number_of_variables())
         elif op == 'hdr':
             F.header[st[1]] = st[2]
+        elif op == 'render':
+            # an earlier rendering of the same object (its text is discarded):
+            # what is rendered later must be the formula as it is then
+            if st[1] == 'opb':
+                F.to_opb()
+            elif st[1] == 'latex':
+                F.to_latex()
+            elif st[1] == 'file-opb':
+                F.to_file(io.StringIO(), fileformat='opb', export_header=True, export_varnames=True)
+            elif st[1] == 'file-latex':
+                F.to_file(io.StringIO(), fileformat='latex')
+            elif st[1] == 'names':
+                list(F.all_variable_labels())
+            else:
+                raise KeyError(st[1])
+        elif op == 'cl-last':
+            n_ = F.number_of_variables()
+            F.add_clause([1, -n_] if n_ >= 2 else [])
+        elif op == 'con-last':
+            n_ = F.number_of_variables()
+            if hasattr(F, 'add_constraint'):
+                F.add_constraint([(2, n_), (1, -1), '>=', 2] if n_ >= 2 else ['>=', 0])
+            else:
+                F.add_clause([n_, -1] if n_ >= 2 else [])
+        elif op == 'nv+':
+            F.update_variable_number(F.number_of_variables() + st[1])
         else:
             raise KeyError(op)
     grow(F.number_of_variables())
@@ -770,6 +796,28 @@ def misc_recipes(seed):
     return out
 
 
+def history_recipes(tier):
+    """Objects with a past: every sequence of <= 3 (4) operations that renders
+    at least once and changes the object afterwards, on two start formulas."""
+    depth = 4 if tier == 'thorough' else 3
+    renders = [['render', k] for k in ('opb', 'latex', 'file-opb', 'file-latex', 'names')]
+    changes = [['nv+', 1], ['var', 'Z'], ['block', [2], 'w_{{{}}}'], ['cl-last'], ['con-last'],
+               ['hdr', 'note', 'added later']]
+    alphabet = renders + changes
+    bases = [('CNF', [['var', 'X'], ['var', 'Y'], ['cl', [1, -2]]]),
+             ('OPB', [['nv', 2], ['con', [[2, 1], [3, -2]], '>=', 2], ['cl', [-1, 2]]]),
+             ('OPB', [])]
+    out = []
+    for L in range(2, depth + 1):
+        for ops in itertools.product(range(len(alphabet)), repeat=L):
+            first = next((i for i, o in enumerate(ops) if o < len(renders)), None)
+            if first is None or all(o < len(renders) for o in ops[first:]):
+                continue
+            cls, base = bases[len(out) % len(bases)]
+            out.append({'cls': cls, 'tag': 'history', 'steps': base + [alphabet[o] for o in ops]})
+    return out
+
+
 def header_recipes():
     out = []
     body = [['nv', 3], ['cl', [1, -2]], ['cl', [-3]]]
@@ -823,6 +871,8 @@ def shards(tier, seed):
         out.append(('long-%02d' % k, 'run_catalogue', {'what': 'long', 'k': k, 'K': 12, 'seed': seed}))
     out.append(('misc', 'run_catalogue', {'what': 'misc', 'k': 0, 'K': 1, 'seed': seed}))
     out.append(('header', 'run_catalogue', {'what': 'header', 'k': 0, 'K': 1, 'seed': seed}))
+    for k in range(4):
+        out.append(('history-%d' % k, 'run_catalogue', {'what': 'history', 'k': k, 'K': 4, 'tier': tier}))
     out.append(('format-CNF', 'run_formats', {'cls': 'CNF'}))
     out.append(('format-OPB', 'run_formats', {'cls': 'OPB'}))
     out.append(('guess', 'run_guess', {}))
@@ -889,6 +939,8 @@ def run_catalogue(args, R):
         recs = long_recipes()
     elif what == 'misc':
         recs = misc_recipes(args.get('seed', 0))
+    elif what == 'history':
+        recs = history_recipes(args.get('tier', 'quick'))
     else:
         recs = header_recipes()
     recs = [r for i, r in enumerate(recs) if i % args['K'] == args['k']]
